@@ -42,6 +42,7 @@ func (vc *VC) newEnv(st, old *state, pkgPath string) *specEnv {
 // envAt: environment of the function under verification (parameters, free variables).
 func (vc *VC) envAt(st, old *state) *specEnv {
 	env := vc.newEnv(st, old, FuncPkgPath(vc.fn))
+	env.locals = true
 	for _, p := range vc.fn.Params {
 		env.vars[p.Name()] = sval{term: vc.vals[p], typ: p.Type()}
 	}
@@ -169,10 +170,21 @@ func (vc *VC) tr(e Expr, env *specEnv, c *Clause) sval {
 		}
 		env.bound = append(env.bound, frame)
 		body := vc.trBool(e.Body, env, c)
+		var pats []string
+		for _, grp := range e.Triggers {
+			var ts []string
+			for _, t := range grp {
+				ts = append(ts, vc.tr(t, env, c).term)
+			}
+			pats = append(pats, ":pattern ("+strings.Join(ts, " ")+")")
+		}
 		env.bound = env.bound[:len(env.bound)-1]
 		kw := "exists"
 		if e.Forall {
 			kw = "forall"
+		}
+		if len(pats) > 0 {
+			body = fmt.Sprintf("(! %s %s)", body, strings.Join(pats, " "))
 		}
 		return boolv(fmt.Sprintf("(%s (%s) %s)", kw, strings.Join(bs, " "), body))
 	}
@@ -358,10 +370,10 @@ func (vc *VC) trIndex(e *EIndex, env *specEnv, c *Clause) sval {
 		et := t.Elem()
 		if _, ok := structOf(et); ok {
 			f := vc.declareFun("ea!"+shortType(et), []string{"Int", "Int"}, "Int")
-			return sval{term: fmt.Sprintf("(%s (sl_arr %s) (+ (sl_off %s) %s))", f, x.term, x.term, i.term), typ: types.NewPointer(et)}
+			return sval{term: fmt.Sprintf("(%s (sl_arr %s) (idx (sl_off %s) %s))", f, x.term, x.term, i.term), typ: types.NewPointer(et)}
 		}
 		k := vc.elemKey(et)
-		return sval{term: fmt.Sprintf("(select (select %s (sl_arr %s)) (+ (sl_off %s) %s))", env.st.get(k), x.term, x.term, i.term), typ: et}
+		return sval{term: fmt.Sprintf("(select (select %s (sl_arr %s)) (idx (sl_off %s) %s))", env.st.get(k), x.term, x.term, i.term), typ: et}
 	case *types.Map:
 		_, vk := vc.mapKeys(t)
 		return sval{term: fmt.Sprintf("(select (select %s %s) %s)", env.st.get(vk), x.term, i.term), typ: t.Elem()}
@@ -536,6 +548,25 @@ func (vc *VC) trCall(e *ECall, env *specEnv, c *Clause) sval {
 			vc.specFail(c, "unknown function %q", s.V)
 		}
 		return sval{term: fmt.Sprint(vc.funcID(f))}
+	case "captured":
+		// captured(c, "fn", "var"): value variable var had when closure c (of function fn) was made
+		argN(3)
+		x := vc.tr(e.Args[0], env, c)
+		fs, ok1 := e.Args[1].(*EStr)
+		vs, ok2 := e.Args[2].(*EStr)
+		if !ok1 || !ok2 {
+			vc.specFail(c, "captured(c, \"fn\", \"var\")")
+		}
+		f := vc.lookupFunc(fs.V, env)
+		if f == nil {
+			vc.specFail(c, "unknown function %q", fs.V)
+		}
+		for i, fv := range f.FreeVars {
+			if fv.Name() == vs.V {
+				return sval{term: fmt.Sprintf("(%s %s)", vc.captFun(f, i), x.term), typ: deref(fv.Type())}
+			}
+		}
+		vc.specFail(c, "%s captures no variable %q", fs.V, vs.V)
 	case "bound":
 		// bound(c, k): k-th binding (cell pointer) of closure value c
 		argN(2)
